@@ -10,7 +10,7 @@ from .. import bitauto
 from ..bitauto import KX, KY, P, equivalent, int_equal, Unsupported
 from ..products import resolve_product, filter_ir, keyout_ir, spec_sign, grade
 from ..surface import operator_registry
-from .c02 import run_product, REPS, spec_product, compare_result
+from .c02 import run_product, REPS, THOROUGH_REPS, BASIS_REP, spec_product, compare_result
 
 INFO = {
     "id": "C03",
@@ -178,7 +178,7 @@ GRADE_SELECT = {
 }
 
 
-@rule("C03.table", props=["C03"], min_instances=14, mutants=[
+@rule("C03.table", props=["C03", "C14"], min_instances=21, mutants=[
     ("cp halves nothing but drops the sign", ("codegen", "            termstr = vx * vy if sign > 0 else (- vx * vy)", "            termstr = vx * vy if sign > 0 or filter_func else (- vx * vy)")),
 ])
 def table(ctx):
@@ -188,14 +188,18 @@ def table(ctx):
     reg = operator_registry(repo)
     for opname in ("op", "ip", "lc", "rc", "sp", "cp", "acp"):
         row = reg[opname]
-        for rep_name, (signature, xk, yk) in REPS.items():
+        reps = {k: v + (None,) for k, v in {**REPS, **(THOROUGH_REPS if ctx.tier == "thorough" else {})}.items()}
+        reps[BASIS_REP[0]] = (BASIS_REP[1], BASIS_REP[3], BASIS_REP[4], BASIS_REP[2])
+        for rep_name, (signature, xk, yk, basis) in reps.items():
             c = f"codegen.{row.codegen}#table:{rep_name}"
-            got = run_product(ctx, repo, row.codegen, signature, xk, yk, c)
+            got = run_product(ctx, repo, row.codegen, signature, xk, yk, c, basis=basis)
+            from .c02 import basis_sign_fn
+            sgn = basis_sign_fn(signature, basis) if basis else (lambda a, b, sig=signature: spec_sign(a, b, sig))
             if opname in GRADE_SELECT:
                 keep = lambda kx, ky, s, f=GRADE_SELECT[opname]: f(kx, ky)
             elif opname == "cp":
-                keep = lambda kx, ky, s, sig=signature: s != spec_sign(ky, kx, sig)
+                keep = lambda kx, ky, s, sgn=sgn: s != sgn(ky, kx)
             else:
-                keep = lambda kx, ky, s, sig=signature: s == spec_sign(ky, kx, sig)
-            want = spec_product(signature, xk, yk, keep)
+                keep = lambda kx, ky, s, sgn=sgn: s == sgn(ky, kx)
+            want = spec_product(signature, xk, yk, keep, basis=basis)
             compare_result(ctx, c, ctx.func(f"codegen.{row.codegen}"), got, want, opname)
